@@ -8,8 +8,11 @@ patch="$1"; shift
 ids="$*"
 [ -z "$ids" ] && ids=$(python3 -c "import json;print(' '.join(c['property_id'] for c in json.load(open('MANIFEST.json'))['checks']))")
 if ! git -C /repo diff --quiet; then echo "/repo has uncommitted changes; refusing"; exit 2; fi
+# evidence and replay files of runs against a patched tree must not replace the
+# committed ones: write them to a scratch directory
+SCRATCH=$(mktemp -d /tmp/rxsim_scratch.XXXXXX); cp known_findings.json "$SCRATCH/"; export VERIF_DIR="$SCRATCH"
 git -C /repo apply "$patch" || { echo "patch does not apply"; exit 2; }
-trap 'git -C /repo checkout -- . ; ./check build >/dev/null 2>&1' EXIT
+trap 'git -C /repo checkout -- . ; rm -rf "$SCRATCH"; VERIF_DIR= ./check build >/dev/null 2>&1' EXIT
 if ! ./check build; then echo "BUILD FAILED with the patch"; exit 2; fi
 for id in $ids; do
   out=$(VERIF_SCALE="${VERIF_SCALE:-1}" rxsim/target/release/rxsim check "$id" "${TIER:-quick}" 2>&1); code=$?
